@@ -24,12 +24,33 @@ def _reads_state(node):
     return False
 
 
+LOCK_ATTR = ["use_lock"]     # the attribute of BackendRegistry that holds the lock; resolved from __init__ by `resolve_lock_attr`
+
+
+def resolve_lock_attr(cls):
+    """The lock is the attribute of `self` that `__init__` assigns a `threading.Lock()` / `threading.RLock()` (or a bare
+    `Lock()` / `RLock()`) - found by what is assigned, not by the attribute's spelling (work package "robust").  If there is
+    no such attribute, or more than one, the historical name stays and the dependent facts fail conservatively."""
+    init = find_func(cls, "__init__") if cls is not None else None
+    found = []
+    if init is not None:
+        for n in ast.walk(init):
+            if isinstance(n, ast.Assign) and len(n.targets) == 1 and isinstance(n.targets[0], ast.Attribute) \
+                    and isinstance(n.targets[0].value, ast.Name) and n.targets[0].value.id == "self" and isinstance(n.value, ast.Call):
+                f = n.value.func
+                name = f.attr if isinstance(f, ast.Attribute) else (f.id if isinstance(f, ast.Name) else None)
+                if name in ("Lock", "RLock"):
+                    found.append(n.targets[0].attr)
+    LOCK_ATTR[0] = found[0] if len(found) == 1 else "use_lock"
+    return LOCK_ATTR[0]
+
+
 def _is_lock_with(node):
     if not isinstance(node, ast.With):
         return False
     for item in node.items:
         e = item.context_expr
-        if isinstance(e, ast.Attribute) and e.attr == "use_lock" and isinstance(e.value, ast.Name) and e.value.id == "self":
+        if isinstance(e, ast.Attribute) and e.attr == LOCK_ATTR[0] and isinstance(e.value, ast.Name) and e.value.id == "self":
             return True
     return False
 
@@ -56,7 +77,7 @@ def method_locked(fn):
 def lock_kind(cls):
     init = find_func(cls, "__init__")
     for n in ast.walk(init):
-        if isinstance(n, ast.Assign) and any(isinstance(t, ast.Attribute) and t.attr == "use_lock" for t in n.targets):
+        if isinstance(n, ast.Assign) and any(isinstance(t, ast.Attribute) and t.attr == LOCK_ATTR[0] for t in n.targets):
             v = n.value
             if isinstance(v, ast.Call) and isinstance(v.func, ast.Attribute):
                 return v.func.attr
@@ -273,6 +294,7 @@ def extract():
     lost = []
     tree = parse(FILE)
     reg = find_class(tree, "BackendRegistry")
+    resolve_lock_attr(reg)
     st = find_class(tree, "BackendRegistryState")
     if reg is None or st is None:
         return fallback(), {}, [("registry:classes", "BackendRegistry / BackendRegistryState not found")]
